@@ -600,7 +600,7 @@ macro_rules! blte_harness {
     };
 }
 
-// @family prop=C01 tier=quick timeout=600 role=table-decompressed-size-encrypted
+// @harness prop=C01 tier=quick timeout=600 role=table-decompressed-size-encrypted
 // @bounds one add_mixed_data(Some(spec B Salsa20)) call with a 2-byte symbolic payload, chunk size 3; keys / IVs symbolic
 // @encodes cascette_formats::blte::BlteBuilder::create_encrypted_chunk_with_params, cascette_formats::blte::ChunkInfo::from_chunk_data, cascette_formats::blte::BlteHeader::multi_chunk_with_flags
 // @assumes same models as the builder-program families
@@ -648,9 +648,8 @@ blte_harness!(c01_table_decompressed_size_encrypted, {
     std::mem::forget(store);
     std::mem::forget(file);
 });
-// @end
 
-// @family prop=C01 tier=quick timeout=600 role=kf-explicit-block-index
+// @harness prop=C01 tier=quick timeout=600 role=kf-explicit-block-index
 // @bounds one add_encrypted_data call (Salsa20) as the first builder call, 1-byte symbolic payload, explicit block_index ANY usize; keys / IV symbolic
 // @encodes cascette_formats::blte::BlteBuilder::add_encrypted_data, cascette_formats::blte::BlteFile::decompress_with_keys
 // @assumes same models as the builder-program families
@@ -690,9 +689,8 @@ blte_harness!(c01_kf_explicit_block_index_mismatch, {
     std::mem::forget(store);
     std::mem::forget(file);
 });
-// @end
 
-// @family prop=C01 tier=quick timeout=600 role=header-chunk-count-be24-write
+// @harness prop=C01 tier=quick timeout=600 role=header-chunk-count-be24-write
 // @bounds chunk_count symbolic 0..=2^24-1 written by the real header writer (table emptied so that only the count field varies)
 // @encodes cascette_formats::blte::BlteHeader::write_options, cascette_formats::blte::header::ExtendedHeader::write_options, cascette_formats::blte::BlteHeader::multi_chunk
 // @assumes MD5 model as above; the reading direction (#[br(map)] closure inside the binrw derive) needs >= 256 table entries to distinguish a wrong shift and is outside
@@ -732,9 +730,8 @@ blte_harness!(c01_header_chunk_count_be24_write, {
     std::mem::forget(h);
     std::mem::forget(chunks);
 });
-// @end
 
-// @family prop=C01 tier=quick timeout=600 role=unknown-cipher-type-rejected
+// @harness prop=C01 tier=quick timeout=600 role=unknown-cipher-type-rejected
 // @bounds encryption type byte symbolic outside {0x53, 0x41}; 1-byte payload; both encrypting entry points
 // @encodes cascette_formats::blte::encrypt_chunk_with_key, cascette_formats::blte::BlteBuilder::add_encrypted_data, cascette_formats::blte::BlteBuilder::add_data
 // @assumes same models as the builder-program families
@@ -752,7 +749,6 @@ blte_harness!(c01_unknown_cipher_type_rejected, {
     std::mem::forget(r1);
     std::mem::forget(r2);
 });
-// @end
 
 // Only single-chunk (table-less) containers are registered: with a chunk table the parser does not finish
 // (measured: [Dn 3] cs 1 = 3 plain chunks and [De 2] cs 1 = 2 encrypted chunks both killed at 900 s in symex:
